@@ -41,10 +41,11 @@ func keyClass(n int) string {
 
 // modes of buffer placement
 const (
-	mInPlace  = "inplace"  // dst and src are the same slice
-	mSeparate = "separate" // dst is a different allocation of the same length
-	mLongDst  = "longdst"  // dst is longer than src; the tail must stay untouched
-	mAdjacent = "adjacent" // dst and src are neighbouring halves of one array (must not trip the overlap guard)
+	mInPlace        = "inplace"  // dst and src are the same slice
+	mSeparate       = "separate" // dst is a different allocation of the same length
+	mLongDst        = "longdst"  // dst is longer than src; the tail must stay untouched
+	mAdjacent       = "adjacent" // dst and src are neighbouring halves of one array (must not trip the overlap guard)
+	mInPlaceLongDst = "inplace-longdst"
 )
 
 // rc4Case drives one cipher object through data cut at cuts and compares with want.
@@ -87,6 +88,16 @@ func rc4Case(key, data []byte, cuts []int, mode string, want []byte) {
 					problem = "dst-tail-modified"
 				}
 				out = append(out, dst[:len(chunk)]...)
+			case mInPlaceLongDst:
+				// in place, the destination being the rest of the caller's buffer: same start,
+				// longer than the source (cipher.Stream: "dst and src must overlap entirely or not
+				// at all", len(dst) >= len(src))
+				buf := append(append([]byte{}, chunk...), 0xEE, 0xEE, 0xEE, 0xEE, 0xEE)
+				c.XORKeyStream(buf, buf[:len(chunk)])
+				if !bytes.Equal(buf[len(chunk):], []byte{0xEE, 0xEE, 0xEE, 0xEE, 0xEE}) && problem == "" {
+					problem = "dst-tail-modified"
+				}
+				out = append(out, buf[:len(chunk)]...)
 			case mAdjacent:
 				arr := make([]byte, 2*len(chunk))
 				copy(arr[len(chunk):], chunk)
@@ -179,7 +190,7 @@ func everyByte(n int) []int {
 
 func rc4Workload() {
 	rng := r.Rand("rc4")
-	modes := []string{mInPlace, mSeparate, mLongDst, mAdjacent}
+	modes := []string{mInPlace, mSeparate, mLongDst, mAdjacent, mInPlaceLongDst}
 
 	// anchor: RFC 6229 test vector (key 0x0102030405), first 16 keystream bytes, and at offset 4096
 	{
